@@ -556,7 +556,8 @@ func init() {
 		ops, _ := c["ops"].([]interface{})
 		for _, o := range ops {
 			op, _ := o.(map[string]interface{})
-			now := time.Now().Unix()
+			t0 := time.Now()
+			now := t0.Unix()
 			var r map[string]interface{}
 			func() {
 				defer func() {
@@ -580,6 +581,8 @@ func init() {
 			r["writes"] = s.fault.writes
 			r["now"] = now
 			r["now2"] = time.Now().Unix()
+			r["t0_ms"] = float64(t0.UnixNano()) / 1e6
+			r["t1_ms"] = float64(time.Now().UnixNano()) / 1e6
 			outs = append(outs, r)
 		}
 		if s.cleanup != nil {
